@@ -53,6 +53,8 @@ func (k Kind) String() string {
 		return "bolt.Update"
 	case KFs:
 		return "fs"
+	case KOther:
+		return "stmt"
 	}
 	return "other"
 }
@@ -69,6 +71,7 @@ type thread struct {
 	started bool
 	panicV  interface{}
 	stack   string
+	locks   int // modelled locks currently held by this thread
 }
 
 // PointInfo describes one scheduling decision.
@@ -129,6 +132,34 @@ func (s *Sched) Point(kind Kind, label string, guard func() bool) {
 		panic(abortSignal{})
 	}
 	t.guard = nil
+}
+
+// LockAcquired / LockReleased keep the per-thread count of modelled locks.
+func (s *Sched) LockAcquired() {
+	if s.running >= 0 {
+		s.threads[s.running].locks++
+	}
+}
+func (s *Sched) LockReleased() {
+	if s.running >= 0 && s.threads[s.running].locks > 0 {
+		s.threads[s.running].locks--
+	}
+}
+
+// Yield is inserted by the instrumenter before every statement of the backend
+// packages. It is a scheduling point only while the running thread holds no
+// modelled lock and is not inside a bolt transaction: code that is properly
+// protected is unaffected, a region that lost its protection becomes
+// preemptible statement by statement.
+func Yield() {
+	s := cur
+	if s == nil || s.aborting || s.atomicDepth > 0 || s.running < 0 {
+		return
+	}
+	if s.threads[s.running].locks > 0 {
+		return
+	}
+	s.Point(KOther, "stmt", nil)
 }
 
 // AtomicBegin/AtomicEnd bracket a region in which Points are suppressed.
